@@ -212,7 +212,7 @@ func (s *Symx) of(v ssa.Value, visiting map[ssa.Value]bool, depth int) *Term {
 		if st == nil {
 			return &Term{Op: "unknown", Name: "fieldaddr", Val: v}
 		}
-		return &Term{Op: "field", Name: st.Field(x.Field).Name(), Args: []*Term{rec(x.X)}, Val: v}
+		return &Term{Op: "field", Name: st.Field(x.Field).Name(), Args: []*Term{nonNilAlts(rec(x.X))}, Val: v}
 	case *ssa.IndexAddr:
 		return &Term{Op: "index", Args: []*Term{rec(x.X), rec(x.Index)}, Val: v}
 	case *ssa.Index:
@@ -441,6 +441,8 @@ func (s *Symx) allocTerm(a *ssa.Alloc, visiting map[ssa.Value]bool, depth int) *
 	rec := func(x ssa.Value) *Term { return s.of(x, visiting, depth+1) }
 	elem := a.Type().Underlying().(*types.Pointer).Elem()
 	var whole []*Term
+	var wholeStore *ssa.Store
+	var fieldStores []*ssa.Store
 	fields := map[string][]*Term{}
 	idx := map[string][]*Term{}
 	escapes := false
@@ -449,6 +451,7 @@ func (s *Symx) allocTerm(a *ssa.Alloc, visiting map[ssa.Value]bool, depth int) *
 		case *ssa.Store:
 			if r.Addr == a {
 				whole = append(whole, rec(r.Val))
+				wholeStore = r
 			} else {
 				escapes = true
 			}
@@ -457,6 +460,11 @@ func (s *Symx) allocTerm(a *ssa.Alloc, visiting map[ssa.Value]bool, depth int) *
 			name := st.Field(r.Field).Name()
 			for _, sv := range storesTo(r) {
 				fields[name] = append(fields[name], rec(sv))
+			}
+			for _, ref2 := range *r.Referrers() {
+				if st2, ok := ref2.(*ssa.Store); ok && st2.Addr == ssa.Value(r) {
+					fieldStores = append(fieldStores, st2)
+				}
 			}
 		case *ssa.IndexAddr:
 			k := rec(r.Index).String()
@@ -475,6 +483,24 @@ func (s *Symx) allocTerm(a *ssa.Alloc, visiting map[ssa.Value]bool, depth int) *
 			t.Fields[k] = mkPhi(vs, nil)
 		}
 		if len(whole) > 0 {
+			// `v := T{…}; v.f = x` (a struct copied into a local, e.g. a by-value parameter of an expanded helper, and
+			// then adjusted): the literal's fields, overridden by the field stores that follow the copy
+			if w := whole[0]; len(whole) == 1 && w.Op == "lit" && w.Name == t.Name && w.Fields["<whole>"] == nil {
+				after := true
+				for _, fs := range fieldStores {
+					if !Dominates(wholeStore, fs) {
+						after = false
+					}
+				}
+				if after {
+					for k, v := range w.Fields {
+						if _, overridden := t.Fields[k]; !overridden {
+							t.Fields[k] = v
+						}
+					}
+					return t
+				}
+			}
 			t.Fields["<whole>"] = mkPhi(whole, nil)
 		}
 		return t
@@ -744,4 +770,29 @@ func hasElementStores(a *ssa.Alloc) bool {
 		}
 	}
 	return false
+}
+
+// nonNilAlts: the base of a field access through a pointer cannot be nil (the access would panic), so the nil
+// alternatives of a merged base — the placeholder of a `(nil, false, nil)` / `(nil, err)` result — are dropped.
+// NonNilAlts is nonNilAlts for rule code (e.g. the error operand of errors.Is on its true edge).
+func NonNilAlts(t *Term) *Term { return nonNilAlts(t) }
+
+func nonNilAlts(t *Term) *Term {
+	if t.Op != "phi" {
+		return t
+	}
+	var keep []*Term
+	for _, a := range t.Args {
+		if a.Op == "const" && (a.Name == "nil" || a.String() == "const(nil)") {
+			continue
+		}
+		keep = append(keep, a)
+	}
+	if len(keep) == 0 || len(keep) == len(t.Args) {
+		return t
+	}
+	if len(keep) == 1 {
+		return keep[0]
+	}
+	return &Term{Op: "phi", Args: keep, Val: t.Val}
 }
